@@ -332,6 +332,17 @@ pub fn run_supply_check(check: &str, tier: Tier, seed: u64, index: u64, scratch:
     let mut fr = Rng::stream(seed, "faults");
     let opts = opts_for(check, tier, &mut fr);
     let (mut t, plan) = gen::baseline(seed, &opts);
+    // environment (the same for the fault-free and the faulted world): how the link directory is named,
+    // whether the metadata transport preserves time stamps
+    {
+        let mut er = Rng::stream(seed, "environment");
+        t.link_dir_style = match er.weighted(&[70, 15, 15]) {
+            0 => 0,
+            1 => 1,
+            _ => 2,
+        };
+        t.fixed_mtime = er.chance(1, 3);
+    }
     // the fault-free world must be accepted, otherwise nothing about the faulted one is decided
     let before = rec.evaluations;
     let o = run_supply(&t, scratch);
@@ -362,13 +373,6 @@ pub fn run_supply_check(check: &str, tier: Tier, seed: u64, index: u64, scratch:
             }
         }
     }
-    // environment: how the link directory is named, whether the transport preserves time stamps
-    t.link_dir_style = match fr.weighted(&[70, 15, 15]) {
-        0 => 0,
-        1 => 1,
-        _ => 2,
-    };
-    t.fixed_mtime = fr.chance(1, 4);
     if check == "C15" && fr.chance(1, 3) {
         // the caller asks for a named summary
         t.step_name = Some(gen::simple_name(&mut fr));
